@@ -29,7 +29,7 @@ MANIFEST = dict(
          'one Deprecated, one Preview - never both -, one Omitted, one redactor; on an alias only redactors - at most one - '
          'and custom annotations; a redactor goes on the alias definition, not on a member whose type is an alias; the '
          'annotated type, aliases and nullables unfolded, carries no redactor of its own and is, through lists and maps, '
-         'neither a struct / union nor Void), `stone_cfg` and route attributes (`compileFull` / `LegalFull`: stone_cfg defines no route and no type but a struct named Route; every attribute a route sets is a member of Route or of an ancestor of Route; a member without default whose type is not nullable is set by every route of every other namespace; a value other than `null` for a nullable attribute is given only to attributes whose type - aliases and nullables unfolded - is a primitive type other than Void or a union, and passes the value test of that type; the value test `vc` is a parameter of the theorem, which holds for every such test). Corollaries: `legal_accepted` (a spec that violates none is never '
+         'neither a struct / union nor Void), `stone_cfg` and route attributes (`compileFull` / `LegalFull`: stone_cfg defines no route and no type but a struct named Route; every attribute a route sets is a member of Route or of an ancestor of Route; a member without default whose type is not nullable is set by every route of every other namespace; a value other than `null` for a nullable attribute is given only to attributes whose type - aliases and nullables unfolded - is a primitive type other than Void or a union, and passes the value test of that type. The theorem holds for every value test `vc`; `compile_ok_iff_legal_values` instantiates it with `attrVal` (Model/FeAttrVal.lean): C10`s model of `<Type>.check`, IrCheck.check, reached through aliases and Nullable the way check_attr_repr does - a literal of the kind of the type inside all its bounds: integers in the width and between min_value / max_value, no booleans for numbers, integers for floats only when the double is exact, strings within the lengths and matching the whole pattern, timestamps that strptime reads, for a union the name of a tag without a value; IrCheck`s external calls - float comparison, float(int), the re match, strptime - are parameters on both sides of the iff, not hypotheses). Corollaries: `legal_accepted` (a spec that violates none is never '
          'refused, and none of the model`s recursion bounds is hit), `violation_refused` (any violation, anywhere, in any '
          'order, is refused), `compile_error_sound` (every error kind is only produced on illegal input), '
          '`acceptance_by_rules`, `buildEnv_ok_iff`. The only hypothesis is `nsLexical` (namespace names contain no "/": '
@@ -92,7 +92,7 @@ MANIFEST = dict(
          'disagreements, none occurs). The annotation tests are modelled as one stage after the type passes (the code '
          'applies annotations while it creates each member and validates redactors in a last pass): the same verdict; '
          'when a spec breaks an annotation rule AND a type rule met later in pass 3 the code reports the former, the '
-         'model the latter. Patches are taken in file order (the code groups them by canonical name first). Route attributes are checked as a last stage over the compiled types (the code does it inside the route pass, before the redactors are validated: the same verdict); the VALUE of a route attribute is not evaluated by the driver yet (the value test is the explicit parameter `vc` of compile_ok_iff_legal; a real refusal with a message of `<Type>.check` raised at a route attribute is counted as not judged); the validated attribute dictionary of a route is not part of the model`s output. Not judged: booleans used as numeric arguments, null for an optional argument, min > max for '
+         'model the latter. Patches are taken in file order (the code groups them by canonical name first). Route attributes are checked as a last stage over the compiled types (the code does it inside the route pass, before the redactors are validated: the same verdict); the value test of a route attribute is C10`s IrCheck.check behind an adapter (compiled type -> IrTy; the bounds of float types are re-encoded to IEEE bits by `bitsOfFVal`, an unverified 10-line encoder exercised by the float seeds), its external calls are answered by the driver from tables the harness computes with CPython (float(n), float(n) == n, re with \\A(?:p)\\Z, strptime) and evaluated under both table-miss policies; a message of `<Type>.check` is judged as the value of a route attribute only when the InvalidSpec points at the line of one (defaults of fields raise the same messages: C10); a real CRASH where the model refuses (List / Map / struct attribute given a value when the `cannot be set` test is removed) is counted, not judged (C03); the validated attribute dictionary of a route is not part of the model`s output. Not judged: booleans used as numeric arguments, null for an optional argument, min > max for '
          'numeric bounds, indentation of the first line of a file, which of several errors is reported, Void as a List / '
          'Map element, whether a String pattern must cover the whole example string or only a prefix, a non-string where '
          'a Timestamp is expected, a `:type:` / `:field:` reference through an alias of a struct, the case of a reference tag, '
